@@ -66,7 +66,9 @@ def case(ctx, rng, idx):
     kind = rng.choice(["bool", "spin"])
     T = L.PCBO if kind == "bool" else L.PCSO
     ctx.cat("class:" + T.__name__)
-    labs = [x for x in gen.labels(rng, rng.randint(2, 5))]
+    # labels that sympy cannot sympify inside a dict (None) are excluded: `Symbol * dict` makes sympy try to convert
+    # the dict before Python falls back to the model's __rmul__ -- a sympy limitation, not a qubovert property
+    labs = [x for x in gen.labels(rng, rng.randint(2, 5)) if x is not None] or ["a", "b"]
     exact = rng.random() < 0.7
     if not exact:
         ctx.cat("arbitrary-float-weight")
@@ -193,7 +195,9 @@ def reduction_case(ctx, rng):
     import sympy
     cname = rng.choice(["PUBO", "PUSO", "PCBO", "PCSO"])
     T = getattr(L, cname)
-    labs = gen.labels(rng, rng.randint(3, 6))
+    labs = [x for x in gen.labels(rng, rng.randint(3, 6)) if x is not None]
+    if len(labs) < 3:
+        labs = ["a", "b", "c"]
     terms = {}
     for _ in range(rng.randint(1, 4)):
         k = tuple(rng.sample(labs, rng.randint(3, min(5, len(labs)))))
